@@ -35,15 +35,12 @@ CLAIMED = {
   design_ref="DESIGN.md §6 C05", note="read_next/buffer_master bodies are exercised only through the enumerated master-free documents; hang-freedom rests on the ranking argument (T5).",
   technique=T + "panic-freedom of each reader unit on fully symbolic inputs"),
  "C06": dict(
-  text="Decision logic only: per header, against any valid chain of open masters over spec Tree with symbolic known/unknown sizes and extents, an element is accepted iff its id is declared, its declared path matches the chain left after closing "
-       "unknown-size masters, and it lies inside every known-size ancestor; otherwise HierarchyError/OversizedChildElement; implied ancestors of a mid-document start are stored as End. "
-       "The mechanics (End emission order, closing loop, EOF closing) live in read_next: NOT covered.",
-  design_ref="DESIGN.md §6 C06/C07", note="Partial claim (decision logic). Spec Tree, depth <= 3, 1-byte ids.",
+  text='Decision logic only. (i) validate_tag_path over spec Tree for every chain of open masters x every known/unknown-size pattern x every declared element: accepted iff the declared path matches the chain left after closing the trailing unknown-size masters the element ends (never while a known-size master is open inside); (ii) header unit with symbolic id/size/mask/limit at stack depth 0 and 1; (iii) containment on stacks up to depth 3 (every known/unknown pattern that matters, symbolic sizes): oversized iff it overruns ANY known-size ancestor; (iv) implied ancestors of a mid-document start are stored as End at offset 0; (v) with EOF closing off nothing is emitted at end of input. The emission mechanics (End order, closing loop, EOF closing) live in read_next: NOT covered.',
+  design_ref="DESIGN.md §6 C06/C07", note='Partial claim (decision logic). Spec Tree (4 master levels), 1-byte ids. In (i) the finite id domain is enumerated as constants (no symbolic slot).',
   technique=T + "hierarchy/containment checks of the header unit vs pattern oracle on seeded stacks"),
  "C07": dict(
-  text="Decision logic only: is_ended_by(m, e) for all masters m of Tree and ALL 2^64 ids e == (sibling | ancestor instance | root), never global/undeclared; header acceptance judged against the chain after closing per the property's recursive rule. "
-       "The closing loop itself and known/unknown equivalence of whole documents are in read_next: NOT covered.",
-  design_ref="DESIGN.md §6 C06/C07", note="Partial claim (decision logic).",
+  text="Decision logic only: is_ended_by(m, e) for all 6 masters m of Tree (4 levels) and ALL 2^64 ids e == (sibling | instance of any ancestor | root), never global/undeclared; the validator judges an element against the chain after closing per the property's recursive rule (all known/unknown patterns of chains up to depth 3). The closing loop itself, close-by-size and known/unknown equivalence of whole documents are in read_next: NOT covered.",
+  design_ref="DESIGN.md §6 C06/C07", note='Partial claim (decision logic).',
   technique=T + "is_ended_by truth table over all ids + header unit with unknown-size stacks"),
  "C09": dict(
   text="Per unit: ids emitted unchanged for every well-formed id; explicit width honoured exactly and only the size field changes (numeric all 64-bit values, binary/utf8 payload 0..3 symbolic bytes, widths 1,2,4,8 / dispatch of all 8 widths through the public API); "
@@ -51,14 +48,12 @@ CLAIMED = {
   design_ref="DESIGN.md §6 C09", note="The public writer on whole documents is intractable; clause (e) Full-equivalence is not decided.",
   technique=T + "writer units via hooks vs reference byte layout"),
  "C10": dict(
-  text="Public write of an element with 0..2 masters open in every known/unknown combination (symbolic payload and buffered bytes): destination only extended; no known-size master open => buffer empty and element handed over and flushed; "
-       "known-size master open => destination untouched, buffer extended; private_flush delivers exactly the buffer under short writes; end_tag layout (C09a).",
-  design_ref="DESIGN.md §6 C10", note="Per-call contract with Inv_w asserted as post-condition; sequences by induction (T5). flush()/into_inner() loop over end_tag not run as a whole.",
+  text='Public write / write_raw of an element with 0..2 masters open in every known/unknown combination (symbolic payload and buffered bytes): destination only extended; no known-size master open => buffer empty and element handed over; a known-size master open at ANY depth => destination untouched, buffer extended; private_flush delivers exactly the buffer under short writes (symbolic and concrete lengths); end_tag layout (C09a).',
+  design_ref="DESIGN.md §6 C10", note='Per-call contract with Inv_w asserted as post-condition; sequences by induction (T5). flush()/into_inner() as a whole are intractable (out of memory) and NOT covered.',
   technique=T + "flush contract of one public write from seeded writer states"),
  "C11": dict(
-  text="(a) validate_tag_path == declared-path pattern semantics for ONE fully symbolic path (<= 3 parts, Id or Global(min,max) in any position) against every chain <= 3; "
-       "(b) reader call site on Tree with seeded stacks incl. unknown-size masters: HierarchyError carrying the offending id iff the remaining chain does not match; is_ended_by table.",
-  design_ref="DESIGN.md §6 C11", note="Writer call site uses the same function with known-size chains (c19_full_invalid_child exercises rejection). Multi-id symbolic spec tables outside.",
+  text='(a) validate_tag_path == declared-path pattern semantics for ONE fully symbolic path of 0..3 parts (Id or Global(min,max) with any bounds, in any position) against every chain of 0..3 known-size masters; (b) the same function over Tree with unknown-size masters in every pattern (ids enumerated); (c) reader call site at depth 0/1 with symbolic header: HierarchyError carrying the offending id iff the remaining chain does not match; is_ended_by table.',
+  design_ref="DESIGN.md §6 C11", note='Writer call site uses the same function (known-size chains). Multi-id symbolic spec tables outside.',
   technique=T + "validator vs DP pattern-matching oracle, symbolic path and chain"),
  "C12": dict(
   text="(a) a header cut anywhere (fill 0..15, stale bytes symbolic) yields the EOF error with start == cursor, id present iff complete, no size - never corruption; (b) a two-element document cut at EVERY position, payload symbolic: "
@@ -66,8 +61,7 @@ CLAIMED = {
   design_ref="DESIGN.md §6 C12", note="Ends of open masters at boundary cuts need read_next with masters: NOT covered. Flat spec, capacity 32/16.",
   technique=T + "truncated header unit + public next() on every cut of an enumerated document"),
  "C13": dict(
-  text="Header unit with symbolic tolerance mask (all 8) and limit: a complete header is rejected only for a fault it has, with that fault's own kind, id and offset, never for a tolerated class; accepted implies no untolerated fault "
-       "(unknown id, misplaced, overrun, above limit); default limit in force (limit symbolic incl. Some/None). Prefix-monotonicity = one-step version by induction.",
+  text="Header unit with symbolic tolerance mask (all 8) and limit: a complete header is rejected only for a fault it has, with that fault's own kind, id and offset, never for a tolerated class; accepted implies no untolerated fault (unknown id, misplaced, overrun, above limit); the limit stays in force under every tolerance setting; containment decided on stacks up to depth 3. Prefix-monotonicity = one-step version by induction.",
   design_ref="DESIGN.md §6 C13", note="Flat (all header shapes) + Tree (hierarchy/oversize with seeded stacks).",
   technique=T + "header unit: fault-set oracle under every tolerance mask"),
  "C14": dict(
@@ -85,7 +79,7 @@ CLAIMED = {
   design_ref="DESIGN.md §6 C16", note="Writer encoders reached through cfg-guarded forwarding hooks; stubs for fmt::format/ToolError Display (error text unobserved).",
   technique=T + "payload decoders and numeric encoders, all 64-bit values"),
  "C17": dict(
-  text="(a) header unit: a known size above the (symbolic) limit is never accepted, for every size-field width up to 8 bytes, no arithmetic overflow; (b) refill unit: after ensure_data_read(len) the allocation is at most max(previous allocation, len).",
+  text='(a) header unit: a known size above the (symbolic) limit is never accepted under any tolerance mask, for every size-field width up to 8 bytes, no arithmetic overflow; (b) refill unit: after ensure_data_read(len) the allocation is at most max(previous allocation, len) (symbolic and concrete cursor positions).',
   design_ref="DESIGN.md §6 C17", note="'rejected before any allocation' = the header check precedes read_tag_data (call order by inspection); real allocator behaviour outside.",
   technique=T + "size-limit check of the header unit + allocation bound of the refill unit"),
  "C18": dict(
